@@ -378,21 +378,66 @@ var classCode = map[string]int{"": 0, "self-target": 1, "named-cycle": 2, "star-
 var knownClass = map[string]bool{"self-target-silent": true, "named-cycle": true, "star-unsat": true,
 	"after-overwritten": true, "stale-request": true}
 
-// sigOf: the class of the first in-domain step of the history whose state is in a KNOWN class ("" = none);
-// computed from the input only (twin of C17_CheckK.first_known).  Also returns the distinct classes and
+// backStep: twin of C17_BackDef.ok_step_b.  F = the Before/After targets named so far (updated with the
+// targets of s first): no request is "*", and a matched Register does not take a name that has been a target.
+func backStep(F map[string]bool, s Step, skipTx bool) bool {
+	if s.Before != "" {
+		F[s.Before] = true
+	}
+	if s.After != "" {
+		F[s.After] = true
+	}
+	if s.Before == "*" || s.After == "*" {
+		return false
+	}
+	matched := !(s.Tx && skipTx)
+	return !(s.Kind == "register" && matched && F[s.Name])
+}
+
+// theoremDomain: which unbounded whole-property theorem covers the history (input only):
+// "backward:user-targets" (c17_backward_domain_correct, some request names a user callback registered
+// earlier), "backward:builtin-targets" (requests name built-ins or nothing: also the plugin domain), "none".
+func theoremDomain(in Input) string {
+	F := map[string]bool{}
+	user := map[string]bool{}
+	beyond := false
+	for _, s := range in.Steps {
+		if !backStep(F, s, in.SkipTx) {
+			return "none"
+		}
+		if user[s.Before] || user[s.After] {
+			beyond = true
+		}
+		if s.Kind == "register" && !s.Builtin {
+			user[s.Name] = true
+		}
+	}
+	if beyond {
+		return "backward:user-targets"
+	}
+	return "backward:builtin-targets"
+}
+
+// sigOf: the class of the first in-domain step of the history, after it has left the backward domain,
+// whose state is in a KNOWN class ("" = none); computed from the input only (twin of C17_CheckK.first_known).  Also returns the distinct classes and
 // labels met along the history.
 func sigOf(in Input) (string, []string) {
 	r := newRef()
 	sig := ""
 	var all []string
 	seen := map[string]bool{}
+	F := map[string]bool{}
+	bk := true
 	for i, s := range in.Steps {
 		r.apply(i, s, in.SkipTx)
+		bk = backStep(F, s, in.SkipTx) && bk
 		if !r.inDomain {
 			break
 		}
 		c := r.class()
-		if knownClass[c] && sig == "" {
+		// while the history is backward the whole property is proved on the model
+		// (c17_backward_domain_correct): no class excuses a failure there
+		if knownClass[c] && sig == "" && !bk {
 			sig = c
 		}
 		if c != "" && !seen[c] {
